@@ -192,7 +192,10 @@ func (k *Keeper) IterateUndelegationsByStakerAndAsset(
 // end of the block with the provided height.
 func (k *Keeper) GetPendingUndelegationRecKeys(ctx sdk.Context, height uint64) (recordKeyList []string, err error) {
 	store := prefix.NewStore(ctx.KVStore(k.storeKey), types.KeyPrefixPendingUndelegations)
-	iterator := sdk.KVStorePrefixIterator(store, []byte(hexutil.EncodeUint64(height)))
+	// the keys are hex(height) + "/" + hex(nonce): the delimiter is part of the prefix, otherwise the
+	// records of every height whose hex encoding merely starts with hex(height) (0x1 -> 0x10..0x1f,
+	// 0x100..) would be returned - and released - as well
+	iterator := sdk.KVStorePrefixIterator(store, []byte(hexutil.EncodeUint64(height)+"/"))
 	defer iterator.Close()
 
 	ret := make([]string, 0)
